@@ -596,7 +596,7 @@ def build_unit(spec, repo=REPO):
         if it.d4:
             toks_ = rsx.sig_tokens(rsx.lex(itext))
             gone_ = []
-            for d in sorted(it.d4, key=lambda d_: d_[0] == "subst"):
+            for d in sorted([d_ for d_ in it.d4 if not (it.contract_of is not None and d_[0] == "replace")], key=lambda d_: d_[0] == "subst"):
                 if d[0] == "subst":
                     hits_ = [t_ for t_ in toks_ if rsx.is_id(t_, d[1]) and not any(a_ <= t_.start < b_ for a_, b_ in gone_)]
                     if not hits_:
